@@ -67,6 +67,10 @@ func sigAnswers(code int) []answer {
 	kc := key_certificate.KeyCertificate{SpkType: data.Integer{byte(code >> 8), byte(code)}, CpkType: data.Integer{0, 0}}
 	ss, ps := kc.SignatureSize(), kc.SigningPublicKeySize()
 	out = append(out, answer{"KeyCertificate.SignatureSize/SigningPublicKeySize", ss != 0 || ps != 0, orNeg(ps != 0, ps), orNeg(ss != 0, ss)})
+	// a per-code answer does not depend on the certificate's other code (here: an unassigned crypto code)
+	kcu := key_certificate.KeyCertificate{SpkType: data.Integer{byte(code >> 8), byte(code)}, CpkType: data.Integer{0x27, 0x0f}}
+	ssu, psu := kcu.SignatureSize(), kcu.SigningPublicKeySize()
+	out = append(out, answer{"KeyCertificate.SignatureSize/SigningPublicKeySize (crypto code 9999 beside it)", ssu != 0 || psu != 0, orNeg(psu != 0, psu), orNeg(ssu != 0, ssu)})
 	n, err = signature.SignatureSize(code)
 	out = append(out, answer{"signature.SignatureSize", err == nil, -1, orNeg(err == nil, n)})
 	op, os := offline_signature.SigningPublicKeySize(uint16(code)), offline_signature.SignatureSize(uint16(code))
@@ -233,6 +237,9 @@ func checkEncCode(code int, r *ev.Rec) error {
 	kc := key_certificate.KeyCertificate{CpkType: data.Integer{byte(code >> 8), byte(code)}, SpkType: data.Integer{0, 7}}
 	cs := kc.CryptoSize()
 	ans = append(ans, answer{"KeyCertificate.CryptoSize", cs != 0, orNeg(cs != 0, cs), -1})
+	kcu := key_certificate.KeyCertificate{CpkType: data.Integer{byte(code >> 8), byte(code)}, SpkType: data.Integer{0x27, 0x0f}}
+	csu := kcu.CryptoSize()
+	ans = append(ans, answer{"KeyCertificate.CryptoSize (signing code 9999 beside it)", csu != 0, orNeg(csu != 0, csu), -1})
 	cps, err := kc.CryptoPublicKeySize()
 	ans = append(ans, answer{"KeyCertificate.CryptoPublicKeySize", err == nil, orNeg(err == nil, cps), -1})
 	want, specKnown := model.EncPubLen[code]
@@ -468,6 +475,20 @@ func checkLayout(c LayoutCase, r *ev.Rec) error {
 			r.Class("fixed-reader:own-pair")
 		} else {
 			r.Class("fixed-reader:accepted-other-pair")
+		}
+	}
+	// the conversion helpers: handed the whole 128-byte signing-key field of the block, they
+	// return the key that occupies its end (for key types that fit the field)
+	if id.Cert.Type == 5 && ss <= 128 && id.SigType != 8 {
+		field := enc[256:384]
+		if spk, cerr := k.KeyCertificate.ConstructSigningPublicKey(append([]byte{}, field...)); cerr == nil && spk != nil {
+			if !bytes.Equal(spk.Bytes(), id.Sig) {
+				return fmt.Errorf("KeyCertificate.ConstructSigningPublicKey(128-byte field) for signing type %d returns % x..., the key at the end of the field is % x...", id.SigType, spk.Bytes()[:8], id.Sig[:8])
+			}
+			r.Class("construct-from-padded-field")
+		}
+		if spk, cerr := key_certificate.ConstructSigningPublicKeyByType(append([]byte{}, field...), id.SigType); cerr == nil && spk != nil && !bytes.Equal(spk.Bytes(), id.Sig) {
+			return fmt.Errorf("ConstructSigningPublicKeyByType(128-byte field, %d) does not return the key at the end of the field", id.SigType)
 		}
 	}
 	// the destination and router-identity readers: every permitted pair is accepted and lays
